@@ -24,8 +24,26 @@ for d in sorted((V / "seeded").glob("*/meta.json")):
             res += "; first missed -> " + m["strengthened"]
     seeds.append(f"| `seeded/{d.parent.name}` | {m['property']} | {m['breaks']} | {m['needs']} | {c.get('demo_patched_rc')} / {c.get('demo_unchanged_rc')} | {res} |")
 seeds += ["", "<!-- END GENERATED seeded -->"]
+import importlib
+import sys
+
+sys.path.insert(0, str(V / "harness"))
+status = ["<!-- BEGIN GENERATED status -->", "", "| id | obligations (theorems in Props/Cxx.lean) | claim, in the check's own words (MANIFEST `level_claimed.text`) |", "|---|---|---|"]
+import common as C  # noqa: E402
+
+for l in open(V / "properties.jsonl"):
+    pid = json.loads(l)["id"]
+    try:
+        mod = importlib.import_module(f"props.{pid}")
+    except Exception as e:  # noqa
+        status.append(f"| {pid} | - | (module not importable: {e}) |")
+        continue
+    n = sum(len(C.theorem_names(m)) for m in mod.LEAN_MODULES)
+    text = " ".join(str(mod.MANIFEST.get("text", "")).split())
+    status.append(f"| {pid} | {n} | {text[:700]} |")
+status += ["", "<!-- END GENERATED status -->"]
 s = (V / "DESIGN.md").read_text()
-for name, block in (("findings", lines), ("seeded", seeds)):
+for name, block in (("findings", lines), ("seeded", seeds), ("status", status)):
     pat = re.compile(rf"<!-- BEGIN GENERATED {name} -->.*?<!-- END GENERATED {name} -->", re.S)
     text = "\n".join(block)
     if pat.search(s):
